@@ -102,6 +102,9 @@ def make_specs(ctx, purpose='c09'):
         for korder in (perms if not quick or len(perms) == 1 else rng.sample(perms, 2)):
             add(17, 40, subset, korder=korder, AB=True, conformity=True, velbias=True, rsd=rng.random() < .5,
                 Nthread=rng.choice([1, 3, 16]))
+    # light cones observed from the coordinate origin (0, 0, 0)
+    for subset in (('LRG',), TRACERS):
+        add(17, 60, subset, origin=True, origin_zero=True, rsd=True, velbias=True, AB=True, Nthread=rng.choice([1, 3, 16]))
     # galaxies exactly on the faces of the box in redshift space (no velocity bias: the galaxy velocity is the host's / particle's)
     for subset in (('LRG',), ('ELG', 'QSO'), TRACERS):
         add(17, 60, subset, faces=True, rsd=True, velbias=False, Nthread=rng.choice([1, 3, 16]))
@@ -207,6 +210,8 @@ def build_case(spec):
     case = dict(spec=spec, halo=hd, part=pd, tracers=tracers, params=params, enable_ranks=bool(spec['ranks']),
                 rsd=bool(spec['rsd']), Nthread=int(spec['Nthread']))
     place_randoms(case, np.random.default_rng([spec['seed'] % (2 ** 32), spec['idx'], 910]))
+    if spec.get('origin_zero'):
+        params['origin'] = np.zeros(3)        # a light cone observed from the corner / centre: the coordinate origin is a legal observer
     if spec.get('observer_on_host') and H >= 1:
         # light cone with the observer exactly on a selected host (and on its particles): the line of sight of that object is
         # undefined (the kernels return NaN coordinates for it), but every OTHER row, the counts and the row order must not depend
